@@ -41,6 +41,20 @@ def modules():
     t = f.add_op(ops.MakeTuple(), inner[0], inner[1])
     f.set_outputs(t, u)
     out.append(("nested-ext-edge", m.hugr))
+
+    # unbounded nat parameter ("bound": null), extension constant with a null payload, function constant whose body has metadata
+    from hugr.build.dfg import Dfg
+    m = Module()
+    m.declare_function("natpoly", tys.PolyFuncType([tys.BoundedNatParam(), tys.ListParam(tys.BoundedNatParam())], tys.FunctionType.empty()))
+    m.add_const(val.Extension("NullPayload", tys.Opaque("t", tys.TypeBound.Copyable, [], "verif.ext"), None, ["verif.ext"]))
+    inner = Dfg(tys.Bool)
+    x = inner.add_op(Not, inner.inputs()[0], metadata={"inner": "mëta", "k": [None, 1]})
+    inner.set_outputs(x)
+    inner.hugr[inner.hugr.root].metadata["root"] = True
+    m.add_const(val.Tuple(val.Function(inner.hugr), val.TRUE))
+    f = m.define_function("uses", [])
+    f.set_outputs(f.load(val.Function(inner.hugr)))
+    out.append(("null-fields-and-function-const-metadata", m.hugr))
     return out
 
 
